@@ -46,6 +46,9 @@ pub enum RFp {
     BadThenDecoy,
     /// a wrong FINGERPRINT followed by a second FINGERPRINT that is right for its own position
     BadThenSecondFp,
+    /// FINGERPRINT carrying the value of the FINGERPRINT of the buffer delivered just before (a value the client has seen
+    /// - and possibly verified - on another message)
+    ValueOfPrevious,
 }
 
 #[derive(Clone, Copy, Debug, PartialEq, Eq, Hash, serde::Serialize, serde::Deserialize)]
@@ -254,7 +257,7 @@ pub fn build_reply(w: &World, tid: [u8; 12], req: Option<&[u8]>, r: &Reply) -> V
             attrs.push(L::Fp);
             macs.push(Mac::Bad);
         }
-        RFp::Valid => {
+        RFp::Valid | RFp::ValueOfPrevious => {
             attrs.push(L::Fp);
             macs.push(Mac::Good);
         }
